@@ -7,6 +7,7 @@ import dataclasses
 import inspect
 from collections import Counter, defaultdict
 from collections.abc import Callable  # noqa: TC003 (sphinx needs unconditional import)
+from copy import deepcopy
 from enum import Enum
 from functools import cache
 from itertools import chain
@@ -130,7 +131,7 @@ class _EvalTransformer(ast.NodeTransformer):
                             ast.Expr(
                                 ast.Call(
                                     ast.Name(id="offdiag", ctx=ast.Load()),
-                                    [node.body[0].value],
+                                    [deepcopy(node.body[0].value)],
                                     [],
                                 )
                             )
@@ -347,8 +348,9 @@ class _DivideTransformer(ast.NodeTransformer):
 
     def visit_BinOp(self, node: ast.BinOp) -> ast.AST:
         """Transform division to a `_safe_divide` call."""
+        node = self.generic_visit(node)
         if not isinstance(node.op, ast.Div):
-            return self.generic_visit(node)
+            return node
 
         return ast.Call(
             func=ast.Name(id="_safe_divide", ctx=ast.Load()),
@@ -387,7 +389,7 @@ class _FunctionTransformer(ast.NodeTransformer):
             *(
                 _LiteralTransformer._to_series(arg)
                 if (isinstance(arg, ast.Constant) and isinstance(arg.value, str))
-                else arg
+                else self.visit(arg)
                 for arg in node.args
             ),
             ast.Name(id="index", ctx=ast.Load()),
